@@ -182,7 +182,8 @@ def run(tier, seed):
                            "single_cycle": job["single_cycle"]},
                           f"native-primitive program of the crossable constraint: {v['verdict']} (first bad pattern {v['pattern']}, {v['nbad']} bad)",
                           {"obj": job["obj"], "single_cycle": job["single_cycle"], "emit": True,
-                           "pattern": job["plist"][v["pattern"]] if "plist" in job and v["pattern"] >= 0 else v["pattern"],
+                           "pattern": job["plist"][v["pattern"]] if "plist" in job and v.get("judged_by") != "z3"
+                           and 0 <= v["pattern"] < len(job["plist"]) else v["pattern"],
                            "nbad": v["nbad"]})
     r = recs[-1]
     chk.sample({"obj": r["obj"], "single_cycle": r["single_cycle"], "admitted_patterns": [p for p in range(len(r["ok"])) if r["ok"][p]][:10]})
